@@ -2,7 +2,7 @@
 From Coq Require Import List ZArith Reals Permutation.
 From Flocq Require Import Core.
 From Coq Require Import Factorial.
-From PMH Require Import Lib.ListArr Lib.FloatFacts Model.FYShuffle Proofs.FYShuffle Proofs.FYUniform Proofs.FYBalance.
+From PMH Require Import Lib.ListArr Lib.FloatFacts Model.FYShuffle Proofs.FYShuffle Proofs.FYUniform Proofs.FYBalance Proofs.FYBridge.
 Import ListNotations.
 Close Scope R_scope.
 Open Scope nat_scope.
@@ -86,7 +86,20 @@ Theorem C17_pick_cells : forall u n j, (0 <= u < 2 ^ 64)%Z -> (1 <= n <= 2 ^ 53)
   ((fy_pick u n = j)%Z <-> (lobound n j * 2 ^ 12 <= u < lobound n (j + 1) * 2 ^ 12)%Z).
 Proof. exact fy_pick_cells. Qed.
 
+(* the integer rounding the model executes IS the binary64 computation of the code: trunc (fl (k * 2^-52 * n)) with fl = round to
+   nearest, ties to even (Flocq), for every 52-bit fraction and every n <= 2^53 - so the theorems above and below, stated on
+   rne_mul_floor / fy_pick, speak about the float expression `(xsi * (m - lastidx) as f64) as usize` *)
+Theorem C17_model_rounding_is_binary64 : forall k n : Z, (0 <= k < 2 ^ 52)%Z -> (1 <= n <= 2 ^ 53)%Z ->
+  rne_mul_floor k n = Zfloor (round radix2 (FLT_exp (-1074) 53) ZnearestE (IZR k * bpow radix2 (-52) * IZR n)).
+Proof. exact rne_mul_floor_is_binary64. Qed.
+
+Theorem C17_pick_is_binary64 : forall u n : Z, (0 <= u < 2 ^ 64)%Z -> (1 <= n <= 2 ^ 53)%Z ->
+  fy_pick u n = Zfloor (round radix2 (FLT_exp (-1074) 53) ZnearestE (IZR (u / 2 ^ 12) * bpow radix2 (-52) * IZR n)).
+Proof. exact fy_pick_is_binary64. Qed.
+
 Print Assumptions C17_index_bound_binary64.
+Print Assumptions C17_model_rounding_is_binary64.
+Print Assumptions C17_pick_is_binary64.
 Print Assumptions C17_cells_are_balanced_intervals.
 Print Assumptions C17_pick_cells.
 Print Assumptions C17_index_bound_model.
